@@ -233,3 +233,9 @@ def run(cx, rep):
     # ---------------------------------------------------------------- C12.7
     rep.rule("C12.7", "reportDecodeError(): every element of an array-valued constructor argument is accounted for (no fixed-size prefix)")
     ts_common.truncation_rule(cx, rep, "C12.7", ['reportDecodeError'])
+    # ---------------------------------------------------------------- C12.9
+    rep.rule("C12.9", "collecting errors never spreads an input-sized list into call arguments (= C03.11)")
+    ts_common.unbounded_spread_rule(cx, rep, "C12.9", ['reportDecodeError'])
+    # ---------------------------------------------------------------- C12.8
+    rep.rule("C12.8", "reportDecodeError() looks at every index of an input array (no hole-skipping walk of the input)")
+    ts_common.hole_skipping_rule(cx, rep, "C12.8", ['reportDecodeError'])
